@@ -69,7 +69,7 @@ def cli_events(lha, a, names, mode, sc, i):
     xd = os.path.join(sc, "cli%s_%d" % (mode, i))
     os.makedirs(xd)
     cmd = [lha, "t", a] if mode == "t" else [lha, "xw=" + xd, a]
-    p = subprocess.run(cmd, capture_output=True, env=V.run_env(), stdin=subprocess.DEVNULL, timeout=300)
+    p = V.run_bounded(cmd, capture_output=True, env=V.run_env(), stdin=subprocess.DEVNULL, timeout=300)
     out = p.stdout
     good = set()
     word = b"Tested" if mode == "t" else b"Melted"
